@@ -236,7 +236,9 @@ class Ctx:
     def run_harness(self, binp, args, lines, timeout=1800, env=None):
         ev = dict(os.environ)
         ev.update(env or {})
-        p = subprocess.run([binp] + args, input="\n".join(lines) + "\n", capture_output=True, text=True, timeout=timeout, env=ev)
+        # a harness that runs optics over unsafe pointers may print arbitrary bytes once an optic leaves its field:
+        # decode leniently so that such a run is judged, not lost to a UnicodeDecodeError
+        p = subprocess.run([binp] + args, input="\n".join(lines) + "\n", capture_output=True, encoding="utf-8", errors="replace", timeout=timeout, env=ev)
         out = p.stdout.split("\n")
         if out and out[-1] == "":
             out.pop()
